@@ -1235,6 +1235,16 @@ fn load_general_body(idx: usize) {
     let want_c = if crate::rt::synchronize::verif_kani::acquires(o) { join_of(&th.causality, &os.sync) } else { th.causality };
     oblige!("C02.nosync.load_acquires_exactly_per_ordering", vv_eq(&nt.causality, &want_c)
         && crate::rt::thread::verif_kani::th_view_eq_except_causality(&th, &nt));
+    // read-read and write-read coherence: the read store becomes mo-later than EVERY store already
+    // observed by (or happening before) the loading thread, whatever its ring slot
+    let mut i = 0;
+    while i < H {
+        if i != idx {
+            let must = spec_seen_by_current(&old.stores[i].first_seen, &th.causality) || vv_lt(&old.stores[i].hb, &th.causality);
+            oblige!("C03.load.coherence_orders_the_read_store_after_every_observed_or_hb_earlier_store", !must || vv_le(&old.stores[i].mo, &ns.mo));
+        }
+        i += 1;
+    }
     oblige!("C03.load.coherence_only_moves_the_read_store_later_in_mo", vv_le(&os.mo, &ns.mo) && ns.value == os.value
         && vv_eq(&ns.hb, &os.hb) && vv_eq(&ns.sync, &os.sync) && ns.seq_cst == os.seq_cst);
     let mut t = 0;
